@@ -37,10 +37,10 @@ def run(cfg):
     gd = py.load(cfg, 'tools/compare_dateutil/tdgenerator.py')
     zst = py.load(cfg, 'tools/validator/zstdgenerator.py')
     R.analysed['python_modules'] = [data.rel, arv.rel, gp.rel, gd.rel, zst.rel]
-    R.rule('R1', 'ValidationItem initialiser: values in member order, same-role keys, seconds -> minutes, quoted string, char type', floor=13)
+    R.rule('R1', 'rendered ValidationItem initialisers carry, member by member, the values of the TestItem they are rendered from (seconds -> minutes, quoted string or nullptr, char type), numItems is the list length (files rendered from tagged items)', floor=13)
     R.rule('R2', 'TestItem keys constructed == declared == read (TypedDict subscripts / NamedTuple attributes)', floor=6)
-    R.rule('R3', 'the pytz and dateutil generators are the same program outside their adapter statements', floor=8)
-    R.rule('R4', 'each transition yields a left and a right item; monthly and year-end samples for every year; de-duplication compares all fields', floor=6)
+    R.rule('R3', 'the pytz and dateutil generators produce the same items on every zone of the model library', floor=5)
+    R.rule('R4', 'on the model library: a left and a right item around every transition, monthly and year-end samples for every year, every field as the model reports it, ordered by epoch; de-duplication compares all fields', floor=20)
 
     def ob(rid, c, loc, ok, msg):
         R.instance(rid, c, loc)
@@ -50,67 +50,83 @@ def run(cfg):
     declared = data.typed_dict_keys('TestItem')
     ob('R2', 'validation.data.TestItem', 'tools/validation/data.py', set(declared) == set(ROLE),
        'TestItem declares %s; the role map of the renderer knows %s' % (sorted(declared), sorted(ROLE)))
-    # ---- R1
-    f = arv.fn('ArduinoValidationGenerator._generate_validation_data_cpp_test_items')
-    loop = [n for n in ast.walk(f.node) if isinstance(n, ast.For)]
-    if len(loop) != 1:
-        raise AnalysisError('%s: expected one loop over the test items' % f.loc)
-    item = loop[0].target.id
-    src = {}        # local var -> (key, transform)
-    for s in loop[0].body:
-        if isinstance(s, ast.Assign) and isinstance(s.targets[0], ast.Name):
-            v = s.value
-            key, how = None, 'plain'
-            for x in ast.walk(v):
-                if isinstance(x, ast.Subscript) and isinstance(x.value, ast.Name) and x.value.id == item and isinstance(x.slice, ast.Constant):
-                    key = x.slice.value
-            if isinstance(v, ast.Call) and isinstance(v.func, ast.Name) and v.func.id == 'div_to_zero' and len(v.args) == 2:
-                how = 'div%s' % (ast.unparse(v.args[1]))
-            if key is None:
-                # derived from another local (abbrev = f'"{abbrev_value}"' if abbrev_value else 'nullptr')
-                names = [x.id for x in ast.walk(v) if isinstance(x, ast.Name) and x.id in src]
-                if names:
-                    key = src[names[0]][0]
-                    how = 'quoted' if isinstance(v, ast.IfExp) and isinstance(v.body, ast.JoinedStr) and '"' in ast.unparse(v.body) and 'nullptr' in ast.unparse(v.orelse) else 'derived'
-            if key is not None:
-                src[s.targets[0].id] = (key, how)
-    fstr = [n for n in ast.walk(loop[0]) if isinstance(n, ast.JoinedStr) and len([v for v in n.values if isinstance(v, ast.FormattedValue)]) >= 8]
-    if not fstr:
-        raise AnalysisError('%s: the item template (an f-string with the item values) was not found' % f.loc)
-    t = fstr[0]
-    order = []
-    lits = []
-    for v in t.values:
-        if isinstance(v, ast.FormattedValue) and isinstance(v.value, ast.Name):
-            order.append(v.value.id)
-        elif isinstance(v, ast.Constant):
-            lits.append(v.value)
-    for i, m in enumerate(members):
+    # ---- R1 by rendering (E-SEQ over the Python ast): the generator writes its files for a tagged TestData; every
+    # initialiser of validation_data.cpp is read back and compared, member by member, with the item it was rendered from
+    from .pyeval import PyEval, Raised
+    from .genrender import capture
+    from .rules_C11 import normalize_name
+
+    def item(epoch, tot, dst, y, mo, d, h, mi, s, ab, ty):
+        return {'epoch': epoch, 'total_offset': tot, 'dst_offset': dst, 'y': y, 'M': mo, 'd': d, 'h': h, 'm': mi, 's': s, 'abbrev': ab, 'type': ty}
+    tdata = {'Tag/Zone-A': [item(7000001, -28800, 0, 2001, 2, 3, 4, 5, 6, 'PQT', 'A'), item(7000061, -25200, 3600, 2002, 7, 8, 9, 10, 11, 'PQDT', 'B'),
+                            item(7100000, -12600, -1800, 2003, 12, 13, 14, 15, 16, None, 'S')],
+             'Tag/B': [item(-5, 19800, 0, 1999, 11, 30, 23, 59, 55, '+0530', 'Y')]}
+    f = arv.fn('ArduinoValidationGenerator.generate_files')
+    ev = PyEval(cfg)
+    files = capture(ev)
+    vals = dict(invocation='tag-invocation', tz_version='2099z', scope='extended', db_namespace='tagdb', blacklist={},
+                validation_data={'start_year': 2000, 'until_year': 2002, 'source': 'model', 'version': '0', 'has_valid_abbrev': True, 'has_valid_dst': True,
+                                 'test_data': tdata})
+    init = arv.fn('ArduinoValidationGenerator.__init__')
+    for p_ in init.params[1:]:
+        if p_ not in vals:
+            raise AnalysisError('%s: constructor parameter %s is not part of the abstraction' % (init.loc, p_))
+    try:
+        obj = ev.instantiate(arv, 'ArduinoValidationGenerator', kwargs={p_: vals[p_] for p_ in init.params[1:]})
+        ev.call(arv, 'ArduinoValidationGenerator.generate_files', ['OUT'], recv=obj)
+    except Raised as r_:
+        raise AnalysisError('%s: generating the validation files of the tagged data raises %s (%s)' % (f.loc, r_.what, r_.loc))
+    cpp = [v for k, v in files.items() if k.endswith('_data.cpp')]
+    if len(cpp) != 1:
+        raise AnalysisError('%s: generate_files() writes %s: no single *_data.cpp' % (f.loc, sorted(files)))
+    text = cpp[0]
+    inv = {v: k for k, v in ROLE.items()}
+
+    def want_token(it, member):
+        k = inv.get(member)
+        if k is None:
+            return None
+        v = it[k]
+        if k in SECONDS_KEYS:
+            return str(int(v / 60))
+        if k == 'abbrev':
+            return '"%s"' % v if v else 'nullptr'
+        if k == 'type':
+            return "'%s'" % v
+        return str(v)
+    blocks = {}
+    for zn in tdata:
+        m = re.search(r'kValidationItems%s\s*\[\s*\]\s*=\s*\{(.*?)\n\};' % re.escape(normalize_name(zn)), text, re.S)
+        blocks[zn] = re.findall(r'\{\s*([^{}]*?)\s*\}', m.group(1)) if m else None
+    for i_, m in enumerate(members):
         c = 'validation.arvalgenerator:ValidationItem.%s' % m
-        R.instance('R1', c, arv.loc(t))
-        if i >= len(order):
-            R.violation('R1', c, arv.loc(t), 'no value is rendered for member %s' % m)
-            continue
-        var = order[i]
-        key, how = src.get(var, (None, None))
-        if key is None or ROLE.get(key) != m:
-            R.violation('R1', c, arv.loc(t), 'position %d (member %s) is rendered from %s (TestItem key %r)' % (i, m, var, key))
-        elif key in SECONDS_KEYS and how != 'div60':
-            R.violation('R1', c, arv.loc(t), 'member %s is in minutes but %s is rendered as %s' % (m, key, how))
-        elif key == 'abbrev' and how != 'quoted':
-            R.violation('R1', c, arv.loc(t), 'the abbreviation is not rendered as a quoted string / nullptr')
-    ob('R1', 'validation.arvalgenerator:ValidationItem:arity', arv.loc(t), len(order) == len(members),
-       'the template renders %d values for %d members' % (len(order), len(members)))
-    txt = ''.join(lits)
-    ob('R1', 'validation.arvalgenerator:ValidationItem:type-literal', arv.loc(t), re.search(r"'\s*$", ''.join(_lit_before(t, order[-1]))) is not None if order else False,
+        R.instance('R1', c, f.loc)
+        bad = None
+        for zn, its in tdata.items():
+            rows = blocks[zn]
+            if rows is None or len(rows) != len(its):
+                continue
+            for it, row in zip(its, rows):
+                toks = [x.strip() for x in row.split(',')]
+                w = want_token(it, m)
+                if i_ >= len(toks) or toks[i_] != w:
+                    got = toks[i_] if i_ < len(toks) else '<nothing>'
+                    src = [k for k in it if any(want_token(it, ROLE[k]) == got for _ in [0])]
+                    bad = bad or 'position %d (member %s) of the initialiser {%s} is %s; the item has %s = %r, rendered %s%s' % (
+                        i_, m, row.strip(), got, inv.get(m), it.get(inv.get(m)), w, (' - %s is the rendering of %s' % (got, src)) if src else '')
+        if bad:
+            R.violation('R1', c, f.loc, bad)
+    ar_ok = all(blocks[zn] is not None and len(blocks[zn]) == len(its) and all(len(r_.split(',')) == len(members) for r_ in blocks[zn]) for zn, its in tdata.items())
+    ob('R1', 'validation.arvalgenerator:ValidationItem:arity', f.loc, ar_ok,
+       'the rendered arrays do not carry one initialiser of %d values per item: %s' % (len(members), {zn: (None if b is None else [len(r_.split(",")) for r_ in b]) for zn, b in blocks.items()}))
+    ob('R1', 'validation.arvalgenerator:ValidationItem:type-literal', f.loc, all(b is not None and all(re.search(r"'.'\s*$", r_) for r_ in b) for b in blocks.values()),
        'the type is not rendered as a character literal')
-    g = arv.fn('ArduinoValidationGenerator._generate_validation_data_cpp_items')
-    gsrc = ast.unparse(g.node)
-    loopg = [n for n in ast.walk(g.node) if isinstance(n, ast.For)][0]
-    lv = [x.id for x in ast.walk(loopg.target) if isinstance(x, ast.Name)]
-    ok = len(lv) == 2 and re.search(r'\{len\(%s\)\}\s*/\*numItems\*/' % lv[1], gsrc) is not None and \
-        re.search(r'_generate_validation_data_cpp_test_items\(\s*%s,\s*%s\)' % (lv[0], lv[1]), gsrc) is not None
-    ob('R1', 'validation.arvalgenerator:numItems', g.loc, ok, 'numItems is not len() of the list that is rendered')
+    nums = {}
+    for zn in tdata:
+        m = re.search(r'kValidationData%s\s*=\s*\{\s*(\d+)\s*/\*\s*numItems\s*\*/' % re.escape(normalize_name(zn)), text)
+        nums[zn] = int(m.group(1)) if m else None
+    ob('R1', 'validation.arvalgenerator:numItems', f.loc, all(nums[zn] == len(its) for zn, its in tdata.items()),
+       'numItems is not the length of the list that is rendered: %s for lists of %s items' % (nums, {zn: len(v) for zn, v in tdata.items()}))
     # ---- R2 schema
     for mod, name in ((gp, 'compare_pytz.tdgenerator'), (gd, 'compare_dateutil.tdgenerator')):
         cf = mod.fn('TestDataGenerator._create_test_item')
@@ -122,8 +138,7 @@ def run(cfg):
         attrs = [x.attr for x in ast.walk(af.node) if isinstance(x, ast.Attribute) and isinstance(x.value, ast.Name) and x.value.id in ('item', 'current')]
         ob('R2', '%s._add_test_item' % name, af.loc, reads <= set(declared) and not attrs,
            '_add_test_item reads %s / attributes %s of a TestItem (a TypedDict must be subscripted with declared keys)' % (sorted(reads - set(declared)), attrs))
-    rd = {x.slice.value for x in ast.walk(f.node) if isinstance(x, ast.Subscript) and isinstance(x.value, ast.Name) and x.value.id == item and isinstance(x.slice, ast.Constant)}
-    ob('R2', 'validation.arvalgenerator:reads', f.loc, rd == set(declared), 'renderer reads keys %s, TestItem declares %s' % (sorted(rd), sorted(declared)))
+    # that the renderer reads every declared key (and no other) is decided by R1: each member is rendered from its key
     # zstdgenerator: its own NamedTuple
     zt = zst.consts.get('TestItem')
     zfields = []
@@ -139,61 +154,148 @@ def run(cfg):
     za = zst.fn('TestDataGenerator._add_test_item')
     attrs = {x.attr for x in ast.walk(za.node) if isinstance(x, ast.Attribute) and isinstance(x.value, ast.Name) and x.value.id in ('item', 'current')}
     ob('R2', 'validator.zstdgenerator._add_test_item', za.loc, attrs <= set(zfields), 'reads attributes %s that the NamedTuple does not declare' % sorted(attrs - set(zfields)))
-    # ---- R3 copies agree
-    fa = {q: f_ for q, f_ in gp.funcs.items() if f_.cls == 'TestDataGenerator'}
-    fb = {q: f_ for q, f_ in gd.funcs.items() if f_.cls == 'TestDataGenerator'}
-    ob('R3', 'tdgenerator:methods', 'tools/compare_dateutil/tdgenerator.py', set(fa) == set(fb), 'method sets differ: %s' % sorted(set(fa) ^ set(fb)))
-    for q in sorted(set(fa) & set(fb)):
-        a, b = _masked(fa[q].node), _masked(fb[q].node)
-        c = 'tdgenerator:%s' % q
-        R.instance('R3', c, fb[q].loc)
-        if a != b:
-            # report the first differing statement
-            sa, sb = _stmts(fa[q].node), _stmts(fb[q].node)
-            d = next(((x, y) for x, y in zip(sa, sb) if x != y), (sa[len(sb):][:1], sb[len(sa):][:1]))
-            R.violation('R3', c, fb[q].loc, 'the pytz and dateutil versions differ outside their adapter statements: %r vs %r' % (str(d[0])[:120], str(d[1])[:120]))
-    # ---- R4
-    for mod, name in ((gp, 'compare_pytz.tdgenerator'), (gd, 'compare_dateutil.tdgenerator')):
-        tf = mod.fn('TestDataGenerator._add_test_items_for_transitions')
-        loops = [n for n in ast.walk(tf.node) if isinstance(n, ast.For)]
-        ok, why = False, 'no loop over the detected transitions'
-        if loops:
-            lp = loops[0]
-            tv = [x.id for x in ast.walk(lp.target) if isinstance(x, ast.Name)]
-            creates = [n for n in ast.walk(lp) if isinstance(n, ast.Call) and ast.unparse(n.func).endswith('_create_test_item')]
-            adds = [n for n in ast.walk(lp) if isinstance(n, ast.Call) and ast.unparse(n.func).endswith('_add_test_item')]
-            tags = []
-            for cnode in creates:
-                first = ast.unparse(cnode.args[0]) if cnode.args else None
-                tagsrc = ast.unparse(cnode.args[1]) if len(cnode.args) > 1 else ''
-                tags.append((first, tagsrc))
-            ok = len(tv) == 3 and len(creates) == 2 and len(adds) == 2 and tags[0][0] == tv[0] and tags[1][0] == tv[1] \
-                and "'a'" in tags[0][1] and "'A'" in tags[0][1] and "'b'" in tags[1][1] and "'B'" in tags[1][1]
-            why = 'each transition must add a left item (a/A) from the left instant and a right item (b/B) from the right instant; found %s' % tags
-        ob('R4', '%s._add_test_items_for_transitions' % name, tf.loc, ok, why)
-        sf = mod.fn('TestDataGenerator._add_test_items_for_samples')
-        ssrc = ast.unparse(sf.node)
-        fors = [n for n in ast.walk(sf.node) if isinstance(n, ast.For)]
-        okm = any(_u(n.iter) == 'range(self.start_year, self.until_year)' for n in fors) and any(_u(n.iter) == 'range(1, 13)' for n in fors)
-        yv = [n.target.id for n in fors if _u(n.iter) == 'range(self.start_year, self.until_year)' and isinstance(n.target, ast.Name)]
-        yend = "'Y'" in ssrc and any(isinstance(n, ast.Call) and _u(n.func).split('.')[-1] == 'datetime' and len(n.args) >= 3
-                                     and [_u(a) for a in n.args[:3]] == [yv[0] if yv else None, '12', '31'] for n in ast.walk(sf.node))
-        nadd = len([n for n in ast.walk(sf.node) if isinstance(n, ast.Call) and ast.unparse(n.func).endswith('_add_test_item')])
-        ob('R4', '%s._add_test_items_for_samples' % name, sf.loc, okm and yend and nadd == 2,
-           'monthly samples for range(1, 13) of every year in range(start_year, until_year) plus one Dec-31 sample are expected')
-        af = mod.fn('TestDataGenerator._add_test_item')
-        cmp_keys = set()
-        for n in ast.walk(af.node):
-            if isinstance(n, ast.Compare) and isinstance(n.ops[0], ast.NotEq) and isinstance(n.left, ast.Subscript) and isinstance(n.comparators[0], ast.Subscript):
-                l, r = n.left, n.comparators[0]
-                if isinstance(l.slice, ast.Constant) and isinstance(r.slice, ast.Constant) and l.slice.value == r.slice.value \
-                        and {ast.unparse(l.value), ast.unparse(r.value)} == {'current', 'item'}:
-                    cmp_keys.add(l.slice.value)
-        want = set(declared) - {'epoch', 'abbrev', 'type'}
-        raises = any(isinstance(n, ast.Raise) for n in ast.walk(af.node))
-        ob('R4', '%s._add_test_item:dedup' % name, af.loc, cmp_keys == want and raises,
-           'duplicate epochs must be compared on %s (compared: %s) and raise on a mismatch' % (sorted(want), sorted(cmp_keys)))
+    # ---- R3 / R4 by interpretation on a model of the third-party library (acv/tzmodel.py)
+    model_rules(cfg, R, ob, gp, gd, declared)
     return R
+
+
+def model_rules(cfg, R, ob, gp, gd, declared):
+    """Both generator copies are interpreted (E-SEQ) with pytz / dateutil.tz replaced by the checker's model zones: yearly
+    DST, a permanent offset shift at an odd minute, a DST-only change, a fixed zone, a zone east of UTC.  R3: the two
+    copies produce the same items for every model zone.  R4: the items are exactly what the model says - a left and a
+    right item around every transition (tags A/B, a/b for DST-only), a sample on the first of every month and on 31
+    December of every year, every field equal to the model's value at that instant, ordered by epoch; an item that
+    repeats an epoch with a different field is refused."""
+    import datetime as _dt
+    from .pyeval import PyEval, Raised
+    from . import tzmodel
+    zones = tzmodel.model_zones()
+
+    def tz_lookup(name):
+        if name not in zones:
+            raise KeyError(name)
+        return zones[name]
+    intr = {'pytz.timezone': tz_lookup, 'pytz.utc': tzmodel.UTC, 'pytz.UTC': tzmodel.UTC, 'pytz.__version__': '0-model', 'pytz.UnknownTimeZoneError': KeyError,
+            'dateutil.tz.gettz': lambda name: zones.get(name), 'dateutil.tz.resolve_imaginary': tzmodel.resolve_imaginary, 'dateutil.tz.UTC': tzmodel.UTC,
+            'dateutil.tz.tzutc': lambda: tzmodel.UTC, 'dateutil.__version__': '0-model', 'dateutil.tz.datetime_exists': lambda dt, tz=None: (tz or dt.tzinfo).exists(dt)}
+    START, UNTIL = 2000, 2002
+    results = {}
+    for mod, name in ((gp, 'compare_pytz.tdgenerator'), (gd, 'compare_dateutil.tdgenerator')):
+        ev = PyEval(cfg, intrinsics=intr, max_steps=3000000)
+        init = mod.fn('TestDataGenerator.__init__')
+        vals = dict(start_year=START, until_year=UNTIL, sampling_interval=22, detect_dst_transition=True)
+        kwargs = {}
+        for p_ in init.params[1:]:
+            if p_ not in vals:
+                raise AnalysisError('%s: constructor parameter %s is not part of the abstraction' % (init.loc, p_))
+            kwargs[p_] = vals[p_]
+        cf = mod.fn('TestDataGenerator.create_test_data')
+        try:
+            g = ev.instantiate(mod, 'TestDataGenerator', kwargs=kwargs)
+            ev.call(mod, 'TestDataGenerator.create_test_data', [list(zones) + ['Model/Unknown']], recv=g)
+            vd = ev.call(mod, 'TestDataGenerator.get_validation_data', recv=g)
+        except Raised as r_:
+            R.instance('R4', '%s:create_test_data' % name, cf.loc)
+            R.violation('R4', '%s:create_test_data' % name, cf.loc, 'generating the reference data of the model zones raises %s (%s)' % (r_.what, r_.loc))
+            continue
+        td = vd.get('test_data') if isinstance(vd, dict) else None
+        if not isinstance(td, dict):
+            raise AnalysisError('%s: get_validation_data() carries no test_data map' % cf.loc)
+        results[name] = td
+        ob('R4', '%s:unknown-zone' % name, cf.loc, 'Model/Unknown' not in td, 'a zone the library does not know is given test items')
+        for zn, tz in zones.items():
+            want = tzmodel.expected_items(tz, START, UNTIL)
+            got = td.get(zn)
+            kinds = (('_add_test_items_for_transitions', lambda it: it['type'] in 'AaBb'), ('_add_test_items_for_samples', lambda it: it['type'] in 'SY'))
+            for kname, sel in kinds:
+                c = '%s.%s[%s]' % (name, kname, zn)
+                R.instance('R4', c, mod.funcs.get('TestDataGenerator.' + kname, cf).loc)
+                if not isinstance(got, list):
+                    R.violation('R4', c, cf.loc, 'no item list is produced for the model zone %s' % zn)
+                    continue
+                w_ = [it for it in want if sel(it)]
+                g_ = [it for it in got if isinstance(it, dict) and sel(it)]
+                if w_ != g_:
+                    we, ge = {it['epoch']: it for it in w_}, {it['epoch']: it for it in g_}
+                    miss = sorted(set(we) - set(ge))
+                    extra = sorted(set(ge) - set(we))
+                    diff = [e for e in we if e in ge and we[e] != ge[e]]
+                    if miss:
+                        msg = 'the item %s is missing' % we[miss[0]]
+                    elif extra:
+                        msg = 'the item %s is not one the model calls for' % ge[extra[0]]
+                    elif diff:
+                        msg = 'the item at epoch %d is %s, the model says %s' % (diff[0], ge[diff[0]], we[diff[0]])
+                    else:
+                        msg = 'the items are not ordered by epoch'
+                    R.violation('R4', c, mod.funcs.get('TestDataGenerator.' + kname, cf).loc, 'zone %s (%s): %s' % (zn, [(str(p[0]), p[1], p[2]) for p in tz.periods[1:]], msg))
+            c = '%s:order[%s]' % (name, zn)
+            R.instance('R4', c, cf.loc)
+            if isinstance(got, list) and [it.get('epoch') for it in got] != sorted(it.get('epoch') for it in got):
+                R.violation('R4', c, cf.loc, 'the items of %s are not ordered by epoch' % zn)
+        # a coarser sampling grid (40 h) must bracket the same transitions to the same minute
+        ev2 = PyEval(cfg, intrinsics=intr, max_steps=3000000)
+        kw2 = dict(kwargs)
+        kw2['sampling_interval'] = 40
+        coarse = ['Model/Yearly', 'Model/Shift']
+        try:
+            g2 = ev2.instantiate(mod, 'TestDataGenerator', kwargs=kw2)
+            ev2.call(mod, 'TestDataGenerator.create_test_data', [coarse], recv=g2)
+            vd2 = ev2.call(mod, 'TestDataGenerator.get_validation_data', recv=g2)
+            td2 = vd2.get('test_data') if isinstance(vd2, dict) else {}
+        except Raised as r_:
+            td2 = r_
+        for zn in coarse:
+            c = '%s.binary_search_transition[%s@40h]' % (name, zn)
+            R.instance('R4', c, cf.loc)
+            if isinstance(td2, Raised):
+                R.violation('R4', c, cf.loc, 'with a sampling interval of 40 hours the generator raises %s' % td2.what)
+                continue
+            w_ = [it for it in tzmodel.expected_items(zones[zn], START, UNTIL) if it['type'] in 'AaBb']
+            g_ = [it for it in (td2.get(zn) or []) if isinstance(it, dict) and it.get('type') in ('A', 'a', 'B', 'b')]
+            if w_ != g_:
+                R.violation('R4', c, cf.loc, 'with a sampling interval of 40 hours the transitions of %s are bracketed by items at epochs %s, the model has them at %s (one minute apart)'
+                            % (zn, [it.get('epoch') for it in g_][:6], [it['epoch'] for it in w_][:6]))
+        # de-duplication: the same epoch with one field changed must be refused
+        af = mod.fn('TestDataGenerator._add_test_item')
+        c = '%s._add_test_item:dedup' % name
+        R.instance('R4', c, af.loc)
+        base = tzmodel.item_at(zones['Model/Fixed'], _dt.datetime(2000, 5, 5, 5, 5), 'S')
+        missed = []
+        for k in sorted(set(declared) - {'epoch', 'abbrev', 'type'}):
+            other = dict(base)
+            other[k] = base[k] + 1
+            m_ = {base['epoch']: dict(base)}
+            try:
+                ev.call(mod, 'TestDataGenerator._add_test_item', [m_, other], recv=g)
+                missed.append(k)
+            except Raised:
+                pass
+        same = {base['epoch']: dict(base)}
+        try:
+            ev.call(mod, 'TestDataGenerator._add_test_item', [same, dict(base, type='A')], recv=g)
+            ok_same = same[base['epoch']]['type'] == 'A'
+        except Raised:
+            ok_same = False
+        if missed:
+            R.violation('R4', c, af.loc, 'an item that repeats an epoch with a different %s is accepted: duplicate epochs must be compared on %s and raise on a mismatch'
+                        % (missed, sorted(set(declared) - {'epoch', 'abbrev', 'type'})))
+        elif not ok_same:
+            R.violation('R4', c, af.loc, 'a transition item (A/B) that repeats the epoch of an equal sample does not replace it')
+    # R3 the copies agree
+    a, b = results.get('compare_pytz.tdgenerator'), results.get('compare_dateutil.tdgenerator')
+    for zn in zones:
+        c = 'tdgenerator:%s' % zn
+        R.instance('R3', c, gd.rel)
+        if a is None or b is None:
+            continue
+        if a.get(zn) != b.get(zn):
+            la, lb = a.get(zn) or [], b.get(zn) or []
+            d = next(((x, y) for x, y in zip(la, lb) if x != y), (la[len(lb):][:1], lb[len(la):][:1]))
+            R.violation('R3', c, gd.rel, 'the pytz and dateutil generators produce different items for the model zone %s: %s vs %s' % (zn, d[0], d[1]))
+    fa = {q for q, f_ in gp.funcs.items() if f_.cls == 'TestDataGenerator' and not f_.short.startswith('_')}
+    fb = {q for q, f_ in gd.funcs.items() if f_.cls == 'TestDataGenerator' and not f_.short.startswith('_')}
+    ob('R3', 'tdgenerator:methods', 'tools/compare_dateutil/tdgenerator.py', fa == fb, 'the public methods differ: %s' % sorted(fa ^ fb))
 
 
 def _lit_before(joined, varname):
